@@ -135,6 +135,7 @@ func genRoundTrip(t *rapid.T) Case {
 	io.Schema1 = rapid.IntRange(0, 4).Draw(t, "allow_schema1") == 0
 	io.Artifacts = rapid.IntRange(0, 2).Draw(t, "allow_artifacts") == 0
 	io.Foreign = rapid.IntRange(0, 4).Draw(t, "allow_foreign") == 0
+	io.NoMediaType = true // OCI image manifests without the optional mediaType field (as C03; the type then comes from the listing descriptor)
 	c.Graph = imggen.Gen(t, io)
 	c.SrcKind = rapid.SampledFrom([]string{"reg", "layout"}).Draw(t, "src_kind")
 	c.TgtKind = rapid.SampledFrom([]string{"reg", "reg", "layout"}).Draw(t, "tgt_kind")
